@@ -444,5 +444,44 @@ def r18_9(ctx):
      ctx.bad(construct, f"`\"say \\\"hi\\\" now\"` is read as {toks}: words between escaped quotes are taken for config names", f.loc()))
 
 
+def r18_10(ctx):
+    """R18.10 (a) every line reaches the stateful checker: in validate_file() the indentation / name checker - the only one that keeps
+    a stack across lines - comes first in the chain (the chain stops at the first error of a line; a later position makes it miss
+    the `endmenu` of a line that also has trailing blanks, its stack never empties and `--replace` can never finish); (b) blank
+    and comment lines of an sdkconfig.rename file are left alone: the skip test of SDKRenameChecker.process_line, folded over the
+    witness lines `\\n`, three blanks, a tab, `# note`, holds for each of them and does not hold for a rename line."""
+    from ..foldcheck import Unfoldable, fold_str_expr
+    from .common import expand_locals
+    repo = ctx.repo
+    v = repo.func(f"{MOD}:validate_file")
+    ctx.analysed(v.qual)
+    tuples = [n for n in ast.walk(v.node) if isinstance(n, (ast.Tuple, ast.List)) and any(isinstance(e, ast.Call) and ast.unparse(e.func) == "IndentAndNameChecker" for e in n.elts)]
+    construct = "validate_file/the stateful indentation checker sees every line first"
+    if not tuples:
+        ctx.bad(construct, "IndentAndNameChecker is no longer part of the checker chain", v.loc())
+    else:
+        names = [ast.unparse(e.func) for e in tuples[0].elts if isinstance(e, ast.Call)]
+        (ctx.ok(construct, v.loc(tuples[0]), chain=names) if names and names[0] == "IndentAndNameChecker" else
+         ctx.bad(construct, f"the chain is {names}: a line that trips an earlier checker never reaches the indentation checker, whose level and prefix stacks then miss "
+                 "that line (an `endmenu` with a trailing blank) - `Prefix stack should be empty` at the end, the corrected file is never installed", v.loc(tuples[0])))
+    p = repo.func(f"{MOD}:SDKRenameChecker.process_line")
+    ctx.analysed(p.qual)
+    prm = [a.arg for a in p.node.args.args if a.arg != "self"][0]
+    skips = [s for s in p.node.body if isinstance(s, ast.If) and s.body and isinstance(s.body[-1], ast.Return) and s.body[-1].value is None]
+    if not skips:
+        raise AnchorError("SDKRenameChecker.process_line: no skip test")
+    test = ast.parse(expand_locals(p.node, skips[0].test), mode="eval").body
+    for w, want in (("\n", True), ("   \n", True), ("\t\n", True), ("# note\n", True), ("#x", True), ("CONFIG_OLD CONFIG_NEW\n", False)):
+        construct = f"SDKRenameChecker.process_line/line {w!r} is {'skipped' if want else 'checked'}"
+        try:
+            got = bool(fold_str_expr(test, {prm: w}))
+        except Unfoldable as e:
+            raise AnalysisError(f"SDKRenameChecker.process_line: skip test `{ast.unparse(test)[:60]}` cannot be folded ({e})")
+        (ctx.ok(construct, p.loc(skips[0])) if got == want else
+         ctx.bad(construct, f"the skip test `{ast.unparse(test)[:70]}` is {got} for this line: "
+                 + ("a blank or comment line is reported (`Line should contain at least old and new config names`) in every pass, with no correction - the file never "
+                    "converges" if want else "a rename line is skipped unchecked"), p.loc(skips[0])))
+
+
 def rules():
-    return [("R18.9", r18_9, 2), ("R18.8", r18_8, 1), ("R18.7", r18_7, 3), ("R18.1", r18_1, 3), ("R18.2", r18_2, 4), ("R18.3", r18_3, 3), ("R18.4", r18_4, 2), ("R18.5", r18_5, 4), ("R18.6", r18_6, 4)]
+    return [("R18.10", r18_10, 7), ("R18.9", r18_9, 2), ("R18.8", r18_8, 1), ("R18.7", r18_7, 3), ("R18.1", r18_1, 3), ("R18.2", r18_2, 4), ("R18.3", r18_3, 3), ("R18.4", r18_4, 2), ("R18.5", r18_5, 4), ("R18.6", r18_6, 4)]
